@@ -15,6 +15,7 @@
 import AM.Lemmas.MatcherClassicRT
 import AM.Lemmas.MatcherUTF8RT
 import AM.Lemmas.MatcherTotal
+import AM.Lemmas.MatcherFallbackRT
 
 namespace AM.Mt
 open AM
@@ -130,6 +131,15 @@ theorem classic_only_still_accepted (compiles : Str → Bool) (s : Str) (e : Err
     fallbackMatcher compiles s = .ok c := by
   rw [fallback_spec, hb, hu, hc]
   simp
+
+/-- Fallback mode: `compat.Matcher(m.String()) = m`, for every well-formed matcher
+    (the classic parser agrees when the name is classic and fails otherwise). -/
+theorem fallback_roundtrip (ip : Nat → Bool) (hp : ip 10 = false) (compiles : Str → Bool) (m : Matcher)
+    (h : WellFormed compiles m) : fallbackMatcher compiles (print ip m) = .ok m := by
+  rw [fallback_spec, print_no_brace_guard, utf8_roundtrip ip hp compiles m h]
+  by_cases hn : classicName m.name = true
+  · rw [classic_roundtrip ip compiles m h hn]; simp
+  · rw [classicMatcher_print_nonclassic ip compiles m (by simpa using hn)]; simp
 
 /-- The brace guard is real: `foo=bar}` is a classic matcher (value `bar}`), the
     UTF-8 parser rejects it, and `compat.Matcher` in fallback mode rejects it too
